@@ -135,6 +135,8 @@ func VerifH_EndToEndUnary() {
 // one message and returns nil; mode 2 reads one message and fails; mode 3 blocks in a
 // receive until its stream context is cancelled and records that.
 type streamHandler struct {
+	meta       map[string]string
+	sawMeta    bool
 	mode       int
 	started    bool
 	returned   bool
@@ -152,6 +154,7 @@ func (h *streamHandler) HandleRPC(stream drpc.Stream, rpc string) error {
 		return stream.MsgSend(&out, hx.ByteEnc{})
 	}
 	h.started = true
+	h.meta, h.sawMeta = drpcmetadata.Get(stream.Context())
 	defer func() { h.returned = true }()
 	switch h.mode {
 	case 0:
@@ -206,7 +209,13 @@ func VerifH_EndToEndStream() {
 	conn := drpcconn.NewWithOptions(trC, drpcconn.Options{Manager: drpcmanager.Options{SoftCancel: soft}})
 	enc := hx.ByteEnc{}
 	ctx := hx.NewCtx()
-	st, err := conn.NewStream(ctx, "rpc", enc)
+	withMeta := vrt.Bool("withMeta")
+	mk, mv := "k", "v" // symbolic metadata strings are covered by the unary harness
+	var sctx context.Context = ctx
+	if withMeta {
+		sctx = drpcmetadata.Add(sctx, mk, mv)
+	}
+	st, err := conn.NewStream(sctx, "rpc", enc)
 	vrt.Assert(err == nil, "stream starts")
 	n := 1 + vrt.Choice("extra", vrt.Param("maxmsgs", 2))
 	sent := []byte{vrt.U8("m0"), vrt.U8("m1"), vrt.U8("m2")}
@@ -237,6 +246,13 @@ func VerifH_EndToEndStream() {
 		done = true
 	}()
 	vrt.Quiesce()
+	if h.started {
+		if withMeta {
+			vrt.Assert(h.sawMeta && len(h.meta) == 1 && h.meta[mk] == mv, "the stream's handler sees exactly the metadata attached to the call")
+		} else {
+			vrt.Assert(len(h.meta) == 0, "no metadata appears from nowhere")
+		}
+	}
 	switch h.mode {
 	case 0:
 		vrt.Assert(done && rerr == io.EOF, "after a graceful half-close the client sees end-of-stream")
